@@ -388,7 +388,9 @@ def pair(ctx: Any) -> List[Ob]:
     rf = qs.methods['reschedule_ptr_first_refresh']
     me = rf.params[0]
     rcfg = cfg_of(rf.node)
-    sched = rcfg.nodes_calling('_schedule_ptr_refresh')
+    # the push: the scheduling primitive itself, or a helper of the class that reaches it
+    pushers = {m_.name for m_ in qs.methods.values() if m_ is not rf and any(g_.name == '_schedule_ptr_refresh' and g_.cls is qs for g_ in ctx.cg.closure([m_], include_deferred=False))}
+    sched = [n for n in rcfg.nodes if any(call_name(c) in pushers and isinstance(c.func, ast.Attribute) and isinstance(c.func.value, ast.Name) and c.func.value.id == me for c in n.calls())]
     flag_nodes = [n for n in rcfg.nodes if n.kind == 'stmt' and any(t.attr == 'cancelled' for t, _ in attr_stores(n.ast))]
     unmap = [n for n in rcfg.nodes if n.kind == 'stmt' and (isinstance(n.ast, ast.Delete) or any(call_name(c) == 'pop' for c in n.calls()))]
     # on the path where a current schedule exists and is superseded, both happen before the new push
@@ -401,6 +403,22 @@ def pair(ctx: Any) -> List[Ob]:
         kept = {('PUSH' not in t) for t in oc4}
         want = abs(diff) <= 10000
         obs.append(ob(R, rf, f'new refresh time {diff:+.0f} ms from the scheduled one (delay 10 s)', f'the existing schedule is {"kept" if want else "replaced"} (a much earlier refresh time must not be ignored)', kept == {want} and not und4, f'kept on {kept}; undecided {und4}'))
+    # who may push: a routine of the scheduler that is called from outside it (by the browser, for a record it was told about)
+    # and reaches a push consults the schedule map for the alias first, on every path -- else the same alias reported twice
+    # (twice in one datagram, or by a type and its subtype) gets two live heap entries for one map entry, and the second pop
+    # finds the map entry gone: KeyError in the timer callback, which is then never re-armed
+    for m_ in sorted(qs.methods.values(), key=lambda g_: g_.name):
+        if m_.name.startswith('__') or not any(g_.name == '_schedule_ptr_refresh' and g_.cls is qs for g_ in ctx.cg.closure([m_], include_deferred=False)):
+            continue
+        ext_callers = [s_ for s_ in ctx.cg.callers_of(m_) if s_.caller.cls is not qs]
+        if not ext_callers:
+            continue
+        mme = m_.params[0]
+        mcfg = cfg_of(m_.node)
+        push_nodes = [n for n in mcfg.nodes if any((call_name(c) in pushers or call_name(c) == '_schedule_ptr_refresh') and isinstance(c.func, ast.Attribute) and isinstance(c.func.value, ast.Name) and c.func.value.id == mme for c in n.calls())]
+        reads = [n for n in mcfg.nodes if n.ast is not None and any(self_attr(x, mme) == '_next_scheduled_for_alias' for x in ast.walk(n.ast)) and n not in push_nodes]
+        unguarded = [pn for pn in push_nodes if mcfg.path_avoiding(mcfg.entry, lambda n, pn=pn: n is pn, lambda n: n in reads) is not None]
+        obs.append(ob(R, m_, push_nodes[0].ast if push_nodes else m_.name, f'{m_.name}() is called from outside the scheduler ({ext_callers[0].caller.qual}): it looks the alias up in the schedule map before it pushes, on every path', bool(push_nodes) and not unguarded, 'a path reaches the push without consulting the schedule map' if unguarded else ''))
     return obs
 
 
@@ -420,8 +438,10 @@ def const(ctx: Any) -> List[Ob]:
     obs.append(ob(R, ('src/zeroconf/_services/browser.py', '<module>'), 'STARTUP_QUERIES', 'four start-up queries', prog.const(bm, 'STARTUP_QUERIES') == 4))
     obs.append(ob(R, ('src/zeroconf/_services/browser.py', '<module>'), '_FIRST_QUERY_DELAY_RANDOM_INTERVAL', 'first query after a random 20-120 ms', tuple(prog.const(bm, '_FIRST_QUERY_DELAY_RANDOM_INTERVAL')) == (20, 120)))
     rf = qs.methods['reschedule_ptr_first_refresh']
-    calls = [c for c in walk_local_ordered(rf.node) if isinstance(c, ast.Call) and call_name(c) == 'get_expiration_time']
-    vals = sorted(str(prog.try_fold(rf.module, c.args[0])[1]) for c in calls)
+    # (read in the routine itself or in a helper of the scheduler it hands the record to)
+    helpers = [g_ for g_ in ctx.cg.closure([rf], include_deferred=False) if g_.cls is qs and g_.name != '_schedule_ptr_refresh']
+    calls = [c for g_ in sorted(set(helpers) | {rf}, key=lambda x: x.name) for c in walk_local_ordered(g_.node) if isinstance(c, ast.Call) and call_name(c) == 'get_expiration_time']
+    vals = sorted({str(prog.try_fold(rf.module, c.args[0])[1]) for c in calls})
     obs.append(ob(R, rf, 'pointer.get_expiration_time(_EXPIRE_REFRESH_TIME_PERCENT) / (100)', 'refresh time is 75 % and expiry 100 % of the record lifetime', vals == ['100', '75'], str(vals)))
     # the schedule is planned from the received copy; the cached record the queries are about holds the same lifetime
     from .c05 import reset_ttl_obligations
